@@ -32,12 +32,13 @@ void vf_sess_set_flags(Session *s, bool enforce_compids, bool silent_disconnect,
 // ---- identity: the two CompID fields of Session::_sid / the acceptor's _sci are built by their real constructors
 void vf_sess_set_sid(Session *s, const char *sender, unsigned ns, const char *target, unsigned nt)
 {
-  new (&s->_sid._senderCompID) sender_comp_id(f8String(sender, ns));
-  new (&s->_sid._targetCompID) target_comp_id(f8String(target, nt));
+  new (&s->_sid) SessionID;                       // real default constructor: all members (incl. the _id/_rid text strings) are proper objects
+  s->_sid._senderCompID.set(f8String(sender, ns));
+  s->_sid._targetCompID.set(f8String(target, nt));
 }
 void vf_sess_set_sci(Session *s, const char *sender, unsigned ns) { new (&s->_sci) sender_comp_id(f8String(sender, ns)); }
-unsigned vf_sess_sid_sender(Session *s, char *out) { const f8String& v(s->_sid._senderCompID()); memcpy(out, v.data(), v.size()); return unsigned(v.size()); }
-unsigned vf_sess_sid_target(Session *s, char *out) { const f8String& v(s->_sid._targetCompID()); memcpy(out, v.data(), v.size()); return unsigned(v.size()); }
+unsigned vf_sess_sid_sender(Session *s, char *out) { const f8String& v(s->_sid._senderCompID()); out[0] = v.size() > 0 ? v[0] : 0; out[1] = v.size() > 1 ? v[1] : 0; return unsigned(v.size()); }
+unsigned vf_sess_sid_target(Session *s, char *out) { const f8String& v(s->_sid._targetCompID()); out[0] = v.size() > 0 ? v[0] : 0; out[1] = v.size() > 1 ? v[1] : 0; return unsigned(v.size()); }
 // ---- timestamps (ticks = nanoseconds since the epoch)
 void vf_sess_set_times(Session *s, long last_sent, long last_received)
 { s->_last_sent = Tickval(static_cast<Tickval::ticks>(last_sent)); s->_last_received = Tickval(static_cast<Tickval::ticks>(last_received)); }
